@@ -3,7 +3,7 @@
 (* judged by the definitions of CodecP.tla. Text = list of character codes.                       *)
 (*  {"ev":"qcode","tid","c":33..126,"enc":text,"dec":text,"raised":s}                              *)
 (*        phredToFastqHeaderSafeQualities(chr(c)) and fastqHeaderSafeQualitiesToPhred of it        *)
-(*  {"ev":"pair","tid","strategy","hv","mode","mate",                                              *)
+(*  {"ev":"pair","tid","strategy","hv","mode","mate","ixp" (index parser configured),                                           *)
 (*   "in":{"is","rn","fc","la","ti","cx","cy","fi","cn","idx"}, "ly":text,   generator's input      *)
 (*   "uq":c|0 (uniform phred character of both reads), "qmax": highest phred character in the reads, *)
 (*   "umi_known":b,"umi_in":text,"umiq_in":text,        UMI bases/qualities as laid out (plain layouts) *)
@@ -47,20 +47,23 @@ PairVerdict(e) ==
        ELSE IF e.raised # "" THEN (IF e.qmax > TopPhredChar THEN "Inv_C04_QTotal" ELSE "Inv_C04_accepted_pair_raises")
        ELSE IF e.refused THEN (IF hlen > BamLimit THEN "ok" ELSE "outside:refused_although_storable")
        ELSE IF hlen > BamLimit THEN "Inv_C04_Refuse"
-       ELSE IF Len(e.header) # hlen THEN "Inv_C04_header_is_not_the_join_of_the_tags"
        ELSE IF ~e.stored THEN "Inv_C04_name_not_storable_below_limit"
        ELSE IF e.digest_raised # "" THEN "Inv_C04_RoundTrip decode_raises"
        ELSE IF ~e.digested THEN "outside:other_mate_not_stored"
        ELSE IF bad # "" THEN "Inv_C04_RoundTrip " \o bad
+       ELSE IF Len(e.header) # hlen THEN "Inv_C04_header_is_not_the_join_of_the_tags"
        ELSE IF Val(bam, "LY") # e.ly THEN "Inv_C04_RoundTrip LY_input"
-       ELSE IF Val(bam, "aa") # e["in"].idx THEN "Inv_C04_RoundTrip aa_input"
+       ELSE IF Len(e["in"].idx) > 0 /\ Val(bam, "aa") # e["in"].idx THEN "Inv_C04_RoundTrip aa_input"
+       ELSE IF Len(e["in"].fi) > 0 /\ Val(bam, "Fi") # e["in"].fi THEN "Inv_C04_RoundTrip Fi_input"
+       ELSE IF Len(e["in"].cn) > 0 /\ Val(bam, "CN") # e["in"].cn THEN "Inv_C04_RoundTrip CN_input"
        ELSE IF e.umi_known /\ Len(e.umi_in) > 0 /\ Val(bam, "RX") # e.umi_in THEN "Inv_C04_RoundTrip RX_input"
        ELSE IF e.umi_known /\ Len(e.umi_in) > 0 /\ Val(bam, "RQ") # Saturate(e.umiq_in) THEN "Inv_C04_RoundTrip RQ_original_phred"
        ELSE IF e.uq > 0 /\ \E i \in DOMAIN Val(bam, "RQ") : bam["RQ"][i] # Saturate(<< e.uq >>)[1] THEN "Inv_C04_RoundTrip RQ_original_phred"
        ELSE IF ~SampleOK(raw, bam) THEN "Inv_C04_Sample"
-       ELSE IF "aA" \notin DOMAIN r THEN (IF Len(e["in"].idx) > 0 THEN "Inv_C04_Molecule no_index_written_although_input_has_one"
+       ELSE IF "aA" \notin DOMAIN r THEN (IF e.ixp /\ Len(e["in"].idx) > 0 THEN "Inv_C04_Molecule no_index_written_although_input_has_one"
                                           ELSE "outside:no_sequencing_index")
        ELSE IF ~MoleculeOK(raw, bam) THEN "Inv_C04_Molecule"
+       ELSE IF e.hv = "3dec" THEN "outside:not_an_illumina_header"
        ELSE IF e.qname # Join7(e["in"]) THEN "Inv_C04_Coordinates"
        ELSE "ok"
 
@@ -69,7 +72,7 @@ Verdict(e) == CASE e.ev = "qcode" -> QVerdict(e)
                 [] e.ev = "summary" -> "ok"
                 [] OTHER -> "unknown_event"
 
-IsOutside(v) == v \in {"outside:not_accepted", "outside:refused_although_storable", "outside:other_mate_not_stored", "outside:no_sequencing_index"}
+IsOutside(v) == v \in {"outside:not_accepted", "outside:refused_although_storable", "outside:other_mate_not_stored", "outside:no_sequencing_index", "outside:not_an_illumina_header"}
 
 TInit == l = 1 /\ lastq = 0
 TNext == /\ l <= Len(Log)
